@@ -686,8 +686,13 @@ def search(ctx):
         cfg = dictbeta_cfg(ctx.rng)
         if k == 2:
             # a table-driven module after simulations with other tables ran in THIS process, against a fresh interpreter
-            cfg = impl.gen_sim_config(ctx.rng, small=True, diseases=['sis'], networks=['random'], demographics=[], allow_global_readers=False)
+            cfg = impl.gen_sim_config(ctx.rng, small=True, diseases=['sis'], networks=['random'], demographics=[], allow_global_readers=False,
+                                      time=dict(unit='year', dt=ctx.rng.choice([1.0, 0.5]), start=ctx.rng.choice([1996, 2000, 2004]), dur=6))   # (whole years: the table matters)
             cfg['demographics'] = [dict(type='deaths', death_table=dict(scale=200.0))]
+            try:     # the same simulation with ANOTHER table (same years / sexes / ages, same time span) runs first in this process
+                make_sim(dict(cfg, rand_seed=cfg['rand_seed'] + 3, demographics=[dict(type='deaths', death_table=dict(scale=60.0))])).run()
+            except Exception:
+                pass
         if k == 1:
             from harness import zoo
             cfg = zoo.configs(names=['pool-two-diseases'])[0][1]; cfg['rand_seed'] = ctx.rng.randint(0, 1000)
